@@ -1285,10 +1285,10 @@ Lemma Gq_proper : forall p q : Q, Qeq p q -> Gq p = Gq q.
 Proof. intros p q H. unfold Gq. f_equal. now apply Q2Qc_eq_iff. Qed.
 
 Lemma Gq_add : forall p q, Gq (p + q) = Gadd (Gq p) (Gq q).
-Proof. intros. unfold Gq, Gadd. simpl. rewrite Q2Qc_add. f_equal. ring. Qed.
+Proof. intros. unfold Gq, Gadd. simpl. rewrite Q2Qc_add. f_equal; try ring. Qed.
 
 Lemma Gq_mul : forall p q, Gq (p * q) = Gmul (Gq p) (Gq q).
-Proof. intros. unfold Gq, Gmul. simpl. rewrite Q2Qc_mul. f_equal; ring. Qed.
+Proof. intros. unfold Gq, Gmul. simpl. rewrite Q2Qc_mul. f_equal; try ring. Qed.
 
 (* the semantic theorem instantiated with Q(i): all hypotheses on the algebra are discharged *)
 Theorem Galg_denote_gen_rhs : forall (hval jval : label -> G) (hcoef jcoef : cname -> G)
@@ -1299,7 +1299,6 @@ Theorem Galg_denote_gen_rhs : forall (hval jval : label -> G) (hcoef jcoef : cna
   (forall t, In t js -> NoDup (map fst (snd t))) ->
   (forall t, In t (h_terms i) -> In (snd (fst t)) (h_coeffs i)) ->
   (forall t, In t js -> In (snd (fst t)) (j_coeffs i)) ->
-  (forall l, In (l, true) (h_conv i) -> hval l = hval l) ->
   (forall X fl, In (X, fl) (j_dict i) -> f_real fl = true -> Gconj (jval X) = jval X) ->
   (forall X fl, In (X, fl) (j_dict i) -> f_herm fl = true -> Gconj (jval X) = jval X) ->
   (forall X fl, In (X, fl) (j_dict i) -> f_id fl = true -> jval X = G1) ->
@@ -1308,8 +1307,195 @@ Theorem Galg_denote_gen_rhs : forall (hval jval : label -> G) (hcoef jcoef : cna
   (forall c e e', In (c, e) (g_cwrites g) -> In (c, e') (g_cwrites g) -> ceval Galg hcoef jcoef e = ceval Galg hcoef jcoef e') ->
   denote_gen Galg hval jval hcoef jcoef g rho = lindblad_rhs Galg hval jval hcoef jcoef sgn (h_terms i) js rho.
 Proof.
-  intros hval jval hcoef jcoef sgn i g rho js Hgen H1 H2 H3 H4 H5 H6 H7 H8 H9 H10 H11.
+  intros hval jval hcoef jcoef sgn i g rho js Hgen H1 H2 H3 H4 H6 H7 H8 H9 H10 H11.
   apply (denote_gen_rhs Galg); try assumption; try exact G_ring; try exact Gq_proper; try exact Gq_add;
-    try exact Gq_mul; try reflexivity; simpl; try (g_ring; fail).
-  all: try (intros; reflexivity).
+    try exact Gq_mul; try reflexivity.
+  all: simpl; g_ring.
+Qed.
+
+(* the code as it stands (bug_sign = true) on the smallest input: one site of dimension 1, no
+   Hamiltonian, L = 1, rate 1.  The generator applied to rho = 1 is i: its trace is not 0, so the
+   generated superoperator is not trace preserving (and not the GKSL generator, which gives 0). *)
+Lemma witness_value_current : G_apply true witness_input G1 = Some Gi.
+Proof.
+  unfold G_apply. vm_compute generate_struct. cbv iota.
+  f_equal; try (apply G_eq; apply Qc_is_canon; vm_compute; reflexivity).
+Qed.
+
+Lemma witness_value_fixed : G_apply false witness_input G1 = Some G0.
+Proof.
+  unfold G_apply. vm_compute generate_struct. cbv iota.
+  f_equal; try (apply G_eq; apply Qc_is_canon; vm_compute; reflexivity).
+Qed.
+
+Lemma Gi_neq_G0 : Gi <> G0.
+Proof.
+  intros H. apply (f_equal snd) in H. simpl in H. apply Q2Qc_eq_iff in H. discriminate H.
+Qed.
+
+Theorem gksl_refuted_current :
+  exists (i : input) (g : gen),
+    generate_struct true i = Ok g /\
+    tr Galg (denote_gen Galg (fun _ => G1) (fun _ => G1) (fun _ => G1) (fun _ => G1) g (m1 Galg)) <> c0 Galg.
+Proof.
+  exists witness_input.
+  pose proof witness_value_current as H. unfold G_apply in H.
+  destruct (generate_struct true witness_input) as [g| |] eqn:E; try discriminate.
+  exists g. split; [reflexivity|]. injection H as H. simpl. unfold Gid. rewrite H. exact Gi_neq_G0.
+Qed.
+
+(* ============================================================================================ *)
+(* The theorems with bundled hypotheses                                                          *)
+(* ============================================================================================ *)
+Ltac use_laws HL := destruct HL; eauto.
+
+Theorem lindblad_form : forall (A : alg), alg_laws A ->
+  forall (hval jval : label -> aL A) (hcoef jcoef : cname -> aC A) (sgn : bool) (i : input) (g : gen) (rho : aM A),
+  generate_struct sgn i = Ok g ->
+  wf_input i -> sound_flags A hval jval i -> functional_tables A hval jval hcoef jcoef g ->
+  denote_gen A hval jval hcoef jcoef g rho
+  = lindblad_rhs A hval jval hcoef jcoef sgn (h_terms i) (map deal (j_ops i)) rho.
+Proof.
+  intros A HL hval jval hcoef jcoef sgn i g rho Hgen [W1 [W2 [W3 W4]]] [S1 [S2 [S3 [S4 [S5 S6]]]]] [F1 F2].
+  destruct HL. apply (denote_gen_rhs A); assumption.
+Qed.
+
+(* the same for any valuation that agrees with the assignments (not only the table's own) *)
+Theorem lindblad_form_val : forall (A : alg), alg_laws A ->
+  forall (hval jval : label -> aL A) (hcoef jcoef : cname -> aC A) (val : label -> aL A) (cval : cname -> aC A)
+         (sgn : bool) (i : input) (g : gen) (rho : aM A),
+  generate_struct sgn i = Ok g ->
+  wf_input i -> sound_flags A hval jval i ->
+  (forall l e, In (l, e) (g_log g) -> val l = meval A hval jval e) ->
+  (forall c e, In (c, e) (g_cwrites g) -> cval c = ceval A hcoef jcoef e) ->
+  denote_all A val cval (g_terms g) rho
+  = lindblad_rhs A hval jval hcoef jcoef sgn (h_terms i) (map deal (j_ops i)) rho.
+Proof.
+  intros A HL hval jval hcoef jcoef val cval sgn i g rho Hgen [W1 [W2 [W3 W4]]] [S1 [S2 [S3 [S4 [S5 S6]]]]] F1 F2.
+  destruct HL. apply (denote_generate A); assumption.
+Qed.
+
+Theorem gksl_form_fixed : forall (A : alg), alg_laws A ->
+  forall (hval jval : label -> aL A) (hcoef jcoef : cname -> aC A) (i : input) (g : gen) (rho : aM A),
+  generate_struct false i = Ok g ->
+  wf_input i -> sound_flags A hval jval i -> functional_tables A hval jval hcoef jcoef g ->
+  denote_gen A hval jval hcoef jcoef g rho
+  = lindblad_rhs A hval jval hcoef jcoef false (h_terms i) (map deal (j_ops i)) rho.
+Proof. intros. now apply lindblad_form. Qed.
+
+Theorem gksl_trace_zero_laws : forall (A : alg), alg_laws A ->
+  forall hval jval hcoef jcoef hs js rho,
+  tr A (lindblad_rhs A hval jval hcoef jcoef false hs js rho) = c0 A.
+Proof. intros A HL. destruct HL. apply (gksl_trace_zero A); assumption. Qed.
+
+Theorem symbolic_eq_dense_laws : forall (A : alg), alg_laws A ->
+  forall hval jval hcoef jcoef (sgn : bool) hs js (cls : list (aC A * aM A)) rho,
+  Forall2 (fun (t : term) cl =>
+             snd cl = tpval A jval (snd t) /\
+             cmul A (fst cl) (fst cl) = cmul A (qC A (fst (fst t))) (jcoef (snd (fst t)))) js cls ->
+  lindblad_rhs A hval jval hcoef jcoef sgn hs js rho
+  = exact_lindbladian A sgn (ham_op A hval hcoef hs) cls rho.
+Proof. intros A HL. destruct HL. apply (symbolic_eq_dense A); assumption. Qed.
+
+Theorem Galg_laws : alg_laws Galg.
+Proof.
+  constructor; try exact G_ring; try exact Gq_proper; try exact Gq_add; try exact Gq_mul;
+    try reflexivity; simpl; g_ring.
+Qed.
+
+(* the generated dictionaries do not depend on the sign variant *)
+Lemma product_terms_sign : forall i idd hermd js jop t4 w4 l4,
+  product_terms true i idd hermd jop js = Ok (t4, w4, l4) ->
+  exists t4', product_terms false i idd hermd jop js = Ok (t4', w4, l4).
+Proof.
+  intros i idd hermd. induction js as [|[[f c] p] js IH]; intros jop t4 w4 l4 H.
+  - simpl in H. inversion H; subst. eexists. reflexivity.
+  - cbn [product_terms] in *.
+    bind_inv H. bind_inv H. destruct x0 as [[pm jop'] lg1]. cbn [fst snd] in H.
+    bind_inv H. bind_inv H. bind_inv H. destruct x2 as [[tr0 wr] lr].
+    cbn [fst snd] in H. injection H as Ht Hw4 Hl4. subst t4 w4 l4.
+    destruct (IH _ _ _ _ E3) as [t' Ht'].
+    rewrite E. cbn [bind]. rewrite E0. cbn [bind fst snd]. rewrite E1. cbn [bind]. rewrite E2. cbn [bind].
+    rewrite Ht'. cbn [bind fst snd]. eexists. reflexivity.
+Qed.
+
+Theorem dictionaries_sign_independent : forall i ts conv co,
+  generate true i = Ok (ts, conv, co) -> exists ts', generate false i = Ok (ts', conv, co).
+Proof.
+  intros i ts conv co H. unfold generate in *. bind_inv H. injection H as H1 H2 H3. subst.
+  unfold generate_struct in *. bind_inv E. bind_inv E. bind_inv E. destruct x2 as [[t4 w4] l4].
+  injection E as Hg. subst x.
+  destruct (product_terms_sign _ _ _ _ _ _ _ _ E2) as [t4' H4].
+  rewrite E0. cbn [bind]. rewrite E1. cbn [bind]. rewrite H4. cbn [bind fst snd g_terms g_writes g_cwrites].
+  eexists. reflexivity.
+Qed.
+
+(* with the GKSL sign the generated superoperator annihilates the trace *)
+Theorem generated_trace_zero_fixed : forall (A : alg), alg_laws A ->
+  forall (hval jval : label -> aL A) (hcoef jcoef : cname -> aC A) (i : input) (g : gen) (rho : aM A),
+  generate_struct false i = Ok g ->
+  wf_input i -> sound_flags A hval jval i -> functional_tables A hval jval hcoef jcoef g ->
+  tr A (denote_gen A hval jval hcoef jcoef g rho) = c0 A.
+Proof.
+  intros. rewrite (gksl_form_fixed A H hval jval hcoef jcoef i g rho) by assumption.
+  now apply gksl_trace_zero_laws.
+Qed.
+
+(* coefficient names of the rendered terms are keys of the rendered coefficient mapping *)
+Theorem coeff_closure : forall sgn i ts conv co,
+  generate sgn i = Ok (ts, conv, co) -> wf_input i ->
+  forall t, In t ts -> dmem (snd (fst t)) co = true.
+Proof.
+  intros sgn i ts conv co H [_ [_ [W3 W4]]] t Ht. unfold generate in H. bind_inv H. rename x into g.
+  injection H as Hts Hconv Hco. subst ts conv co.
+  apply in_map_iff in Ht. destruct Ht as [st [<- Hst]]. unfold render. cbn [fst snd].
+  destruct (coef_closure_struct _ _ _ E W3 W4 st Hst) as [e He].
+  destruct (dupdate_mem (g_cwrites g) [] _ e He) as [v Hv]. unfold dmem. now rewrite Hv.
+Qed.
+
+(* lindblad_rhs with the GKSL sign, written out *)
+Lemma rhs_is_gksl : forall (A : alg) hval jval hcoef jcoef hs js rho,
+  lindblad_rhs A hval jval hcoef jcoef false hs js rho
+  = let H := ham_op A hval hcoef hs in
+    let half := qC A (1 # 2) in
+    madd A (madd A (mmul A H rho) (mopp A (mmul A rho H)))
+      (smul A (ci A)
+         (msum A (map (fun t : term =>
+            let gamma := cmul A (qC A (fst (fst t))) (jcoef (snd (fst t))) in
+            let Lk := tpval A jval (snd t) in
+            let LdL := mmul A (mH A Lk) Lk in
+            smul A gamma
+              (madd A (madd A (mmul A (mmul A Lk rho) (mH A Lk))
+                              (mopp A (smul A half (mmul A LdL rho))))
+                      (mopp A (smul A half (mmul A rho LdL))))) js))).
+Proof. reflexivity. Qed.
+
+(* the witness lies inside the domain of the semantic theorem *)
+Lemma meval_const_G1 : forall e, meval Galg (fun _ => G1) (fun _ => G1) e = G1.
+Proof.
+  induction e as [[|] l|e IH|e IH|e IH|a IHa b IHb]; simpl; try reflexivity;
+    rewrite ?IH, ?IHa, ?IHb; apply G_eq; apply Qc_is_canon; vm_compute; reflexivity.
+Qed.
+
+Theorem gksl_refuted_current_full :
+  exists (i : input) (g : gen),
+    generate_struct true i = Ok g /\
+    wf_input i /\
+    sound_flags Galg (fun _ => G1) (fun _ => G1) i /\
+    functional_tables Galg (fun _ => G1) (fun _ => G1) (fun _ => G1) (fun _ => G1) g /\
+    tr Galg (denote_gen Galg (fun _ => G1) (fun _ => G1) (fun _ => G1) (fun _ => G1) g (m1 Galg)) <> c0 Galg.
+Proof.
+  exists witness_input. eexists. split; [vm_compute; reflexivity|]. split; [|split; [|split]].
+  - unfold wf_input. simpl. split; [intros t []|]. split; [|split; [intros t []|]].
+    + intros t [<-|[]]. simpl. repeat constructor. simpl. tauto.
+    + intros t [<-|[]]. simpl. auto.
+  - unfold sound_flags. simpl. repeat split; try (intros; contradiction); intros;
+      try (apply G_eq; apply Qc_is_canon; vm_compute; reflexivity); try reflexivity.
+    destruct H as [H|[]]. inversion H; subst. reflexivity.
+  - unfold functional_tables. split.
+    + intros l e e' _ _. now rewrite !meval_const_G1.
+    + intros c e e' H1 H2. simpl in H1, H2.
+      destruct H1 as [H1|[H1|[H1|[]]]]; destruct H2 as [H2|[H2|[H2|[]]]];
+        inversion H1; inversion H2; subst; try reflexivity; try discriminate.
+  - change (Gi <> G0). exact Gi_neq_G0.
 Qed.
